@@ -9,10 +9,12 @@ of the *same* pattern object on different targets at once); the per-object
 search-table memo is flushed or pre-warmed as a fault.
 """
 import copy
+import gc
 import pickle
+import sys
 
 from ref import patterns as RP
-from sim import core, histsim
+from sim import allocsim, core, histsim
 
 from . import common
 
@@ -520,17 +522,25 @@ def execute(case):
                     continue  # a live generator still refers to the object: it cannot be freed
                 old_id = id(pool[pi])
                 shared = sum(1 for o in pool if o is pool[pi]) > 1
+                if not shared:
+                    # a searched object is kept alive by the reference cycle of the recursive
+                    # closure of its last search until the collector runs
+                    gc.collect()
+                if not shared and sys.getrefcount(pool[pi]) > 2:
+                    shared = True  # held by something else (the standardisation memo, a mesh pattern built on it)
+                    out.probe("recycled_object_still_referenced")
                 pool[pi] = None
-                keep = []
-                new = None
-                for _ in range(30):
-                    new = pm.Perm(tuple(op["perm"]))
-                    if shared or id(new) == old_id:
-                        break
-                    keep.append(new)
+                new_tuple = tuple(op["perm"])
+                held = None
+                if not shared:
+                    # the freed block sits somewhere down the allocator's free list: dig for it
+                    _addr, held = allocsim.aim(pm.Perm, len(new_tuple), {old_id}, tries=1500)
+                if held is not None:
+                    held[-1] = None
+                new = pm.Perm(new_tuple)
+                del held
                 if id(new) == old_id:
                     out.probe("pattern_object_address_reused")
-                del keep
                 pool[pi] = new
                 pperm[pi] = tuple(op["perm"])
                 searched.pop(pi, None)
